@@ -330,92 +330,100 @@ theorem gpc_upper (S : LeafSpec ev G) (X Y Z : Nat) (m : M) (g : VC) (hg : M.Goo
       · simp only [he, Bool.false_eq_true, if_false] at h
         split at h
         · cases h
-        · rename_i cm hcm
-          simp only [convertMarkersFor, bind, Except.bind] at hcm
-          split at hcm
-          · cases hcm
-          · rename_i d hd
-            have hds := dnf_sound S hg hd
-            split at hcm
-            · cases hcm
-            · rename_i groups hgroups
-              by_cases hall : groups.all List.isEmpty = true
-              · simp [hall, pure, Except.pure] at hcm; subst hcm
-                simp [pure, Except.pure] at h; subst h; exact any_allowsPlain _
-              · simp only [hall, Bool.false_eq_true, if_false, pure, Except.pure] at hcm
-                injection hcm with hcm; subst hcm
-                simp only at h
-                by_cases hc : (dedupGroups groups).contains [] = true
-                · simp only [hc, if_true, pure, Except.pure] at h
-                  injection h with h; subst h; exact any_allowsPlain _
-                · simp only [hc, Bool.false_eq_true, if_false] at h
-                  split at h
-                  · cases h
-                  · rename_i txt htxt
-                    -- every de-duplicated group comes from a conjunction of the DNF
-                    have hmm := mapM_ok_mem (conjPairs "python_version") (membersIfUnion d) groups hgroups
-                    have hgr : ∀ gr ∈ dedupGroups groups, ∃ ls : List Leaf, gr = ls.map leafPair ∧
-                        ∀ l ∈ ls, LeafClause ev X Y Z l := by
-                      intro gr hgr
-                      obtain ⟨c, hc, hcp⟩ := hmm.2 gr ((dedup_mem groups gr).1 hgr)
-                      obtain ⟨ls, h1, h2, h3, _⟩ := conjPairs_spec (ev := ev) c gr hcp
-                      refine ⟨ls, h1, fun l hl => hL l ?_ (h2 l hl)⟩
-                      exact good_leaves c (good_membersIfUnion d hds.1 c hc) l (h3 l hl)
-                    obtain ⟨gsL, hdg, hgsL⟩ := choose_groups _ _ hgr
-                    obtain ⟨itemss, hn, hlen, k3, k4⟩ := normMarkers_groups X Y Z gsL hgsL
-                    rw [hdg, hn] at htxt
-                    injection htxt with htxt; subst htxt
-                    -- the conjunction that holds
-                    obtain ⟨c, hc1, hc2⟩ := semAny_membersIfUnion d (by rw [hds.2]; exact hs)
-                    obtain ⟨gr, hgr1, hgr2⟩ := hmm.1 c hc1
-                    obtain ⟨ls, h1, h2, h3, h4⟩ := conjPairs_spec (ev := ev) c gr hgr2
-                    have hgd : gr ∈ dedupGroups groups := (dedup_mem groups gr).2 hgr1
-                    rw [hdg] at hgd
-                    obtain ⟨ls', hls', hls'e⟩ := List.mem_map.1 hgd
-                    obtain ⟨items, hit, hitl, hitm, _⟩ := k3 ls' hls'
-                    -- items of that group all mean true
-                    have htrue : ∀ it ∈ items, ClauseMeans it X Y Z true := by
-                      intro it hi
-                      obtain ⟨l, hl, hm⟩ := hitm it hi
-                      -- `l` has the pair of a leaf of `ls`, whose clause means true
-                      have hp : leafPair l ∈ gr := by rw [← hls'e]; exact List.mem_map.2 ⟨l, hl, rfl⟩
-                      rw [h1] at hp
-                      obtain ⟨l0, hl0, hpe⟩ := List.mem_map.1 hp
-                      have hev0 := h4 hc2 l0 hl0
-                      obtain ⟨s0, item0, rfl, _, hitem0, hmean0, _⟩ := hL l0
-                        (good_leaves c (good_membersIfUnion d hds.1 c hc1) l0 (h3 l0 hl0)) (h2 l0 hl0)
-                      obtain ⟨s1, item1, rfl, _, hitem1, hmean1, _⟩ := hgsL ls' hls' l hl
-                      simp only [leafPair, Prod.mk.injEq] at hpe
-                      rw [hpe.1, hpe.2, hitem1] at hitem0
-                      injection hitem0 with hitem0; subst hitem0
-                      rw [hev0] at hmean0
-                      obtain ⟨vc0, hvc0, hb0⟩ := hmean0
-                      obtain ⟨vc1, hvc1, hb1⟩ := hmean1
-                      rw [hvc0] at hvc1; injection hvc1 with hvc1; subst hvc1
-                      rw [hb0] at hb1
-                      rw [← hb1] at hm
-                      exact hm.1
-                    have hne : itemss ≠ [] := List.ne_nil_of_mem hit
-                    have hnn : ∀ its ∈ itemss, its ≠ [] := by
-                      intro its hits
-                      obtain ⟨g', hg', hl', _, _⟩ := k4 its hits
-                      intro e
-                      rw [e] at hl'
-                      have : g' = [] := List.length_eq_zero_iff.1 hl'.symm
-                      subst this
-                      apply hc
-                      rw [hdg]
-                      have : ([] : List (String × String)) ∈ gsL.map (·.map leafPair) :=
-                        List.mem_map.2 ⟨[], hg', rfl⟩
-                      simpa using this
-                    have hpar : ∀ its ∈ itemss, ∀ it ∈ its, ItemShape it ∧ ∃ b, ClauseMeans it X Y Z b := by
-                      intro its hits it hi
-                      obtain ⟨g', hg', _, hh, _⟩ := k4 its hits
-                      obtain ⟨l, _, hm⟩ := hh it hi
-                      exact ⟨hm.2, _, hm.1⟩
-                    obtain ⟨vc, hvc, hb⟩ := (hSp itemss hne hnn hpar).1 ⟨items, hit, htrue⟩
-                    rw [hvc] at h; injection h with h; subst h
-                    exact hb
+        · rename_i d0 hd0
+          by_cases hde : d0.isEmpty = true
+          · exfalso
+            have := (dnf_sound S hg hd0).2
+            rw [M.isEmpty_sem hde, hs] at this; cases this
+          · simp only [hde, Bool.false_eq_true, if_false] at h
+            split at h
+            · cases h
+            · rename_i cm hcm
+              simp only [convertMarkersFor, bind, Except.bind] at hcm
+              split at hcm
+              · cases hcm
+              · rename_i d hd
+                have hds := dnf_sound S hg hd
+                split at hcm
+                · cases hcm
+                · rename_i groups hgroups
+                  by_cases hall : groups.all List.isEmpty = true
+                  · simp [hall, pure, Except.pure] at hcm; subst hcm
+                    simp [pure, Except.pure] at h; subst h; exact any_allowsPlain _
+                  · simp only [hall, Bool.false_eq_true, if_false, pure, Except.pure] at hcm
+                    injection hcm with hcm; subst hcm
+                    simp only at h
+                    by_cases hc : (dedupGroups groups).contains [] = true
+                    · simp only [hc, if_true, pure, Except.pure] at h
+                      injection h with h; subst h; exact any_allowsPlain _
+                    · simp only [hc, Bool.false_eq_true, if_false] at h
+                      split at h
+                      · cases h
+                      · rename_i txt htxt
+                        -- every de-duplicated group comes from a conjunction of the DNF
+                        have hmm := mapM_ok_mem (conjPairs "python_version") (membersIfUnion d) groups hgroups
+                        have hgr : ∀ gr ∈ dedupGroups groups, ∃ ls : List Leaf, gr = ls.map leafPair ∧
+                            ∀ l ∈ ls, LeafClause ev X Y Z l := by
+                          intro gr hgr
+                          obtain ⟨c, hc, hcp⟩ := hmm.2 gr ((dedup_mem groups gr).1 hgr)
+                          obtain ⟨ls, h1, h2, h3, _⟩ := conjPairs_spec (ev := ev) c gr hcp
+                          refine ⟨ls, h1, fun l hl => hL l ?_ (h2 l hl)⟩
+                          exact good_leaves c (good_membersIfUnion d hds.1 c hc) l (h3 l hl)
+                        obtain ⟨gsL, hdg, hgsL⟩ := choose_groups _ _ hgr
+                        obtain ⟨itemss, hn, hlen, k3, k4⟩ := normMarkers_groups X Y Z gsL hgsL
+                        rw [hdg, hn] at htxt
+                        injection htxt with htxt; subst htxt
+                        -- the conjunction that holds
+                        obtain ⟨c, hc1, hc2⟩ := semAny_membersIfUnion d (by rw [hds.2]; exact hs)
+                        obtain ⟨gr, hgr1, hgr2⟩ := hmm.1 c hc1
+                        obtain ⟨ls, h1, h2, h3, h4⟩ := conjPairs_spec (ev := ev) c gr hgr2
+                        have hgd : gr ∈ dedupGroups groups := (dedup_mem groups gr).2 hgr1
+                        rw [hdg] at hgd
+                        obtain ⟨ls', hls', hls'e⟩ := List.mem_map.1 hgd
+                        obtain ⟨items, hit, hitl, hitm, _⟩ := k3 ls' hls'
+                        -- items of that group all mean true
+                        have htrue : ∀ it ∈ items, ClauseMeans it X Y Z true := by
+                          intro it hi
+                          obtain ⟨l, hl, hm⟩ := hitm it hi
+                          -- `l` has the pair of a leaf of `ls`, whose clause means true
+                          have hp : leafPair l ∈ gr := by rw [← hls'e]; exact List.mem_map.2 ⟨l, hl, rfl⟩
+                          rw [h1] at hp
+                          obtain ⟨l0, hl0, hpe⟩ := List.mem_map.1 hp
+                          have hev0 := h4 hc2 l0 hl0
+                          obtain ⟨s0, item0, rfl, _, hitem0, hmean0, _⟩ := hL l0
+                            (good_leaves c (good_membersIfUnion d hds.1 c hc1) l0 (h3 l0 hl0)) (h2 l0 hl0)
+                          obtain ⟨s1, item1, rfl, _, hitem1, hmean1, _⟩ := hgsL ls' hls' l hl
+                          simp only [leafPair, Prod.mk.injEq] at hpe
+                          rw [hpe.1, hpe.2, hitem1] at hitem0
+                          injection hitem0 with hitem0; subst hitem0
+                          rw [hev0] at hmean0
+                          obtain ⟨vc0, hvc0, hb0⟩ := hmean0
+                          obtain ⟨vc1, hvc1, hb1⟩ := hmean1
+                          rw [hvc0] at hvc1; injection hvc1 with hvc1; subst hvc1
+                          rw [hb0] at hb1
+                          rw [← hb1] at hm
+                          exact hm.1
+                        have hne : itemss ≠ [] := List.ne_nil_of_mem hit
+                        have hnn : ∀ its ∈ itemss, its ≠ [] := by
+                          intro its hits
+                          obtain ⟨g', hg', hl', _, _⟩ := k4 its hits
+                          intro e
+                          rw [e] at hl'
+                          have : g' = [] := List.length_eq_zero_iff.1 hl'.symm
+                          subst this
+                          apply hc
+                          rw [hdg]
+                          have : ([] : List (String × String)) ∈ gsL.map (·.map leafPair) :=
+                            List.mem_map.2 ⟨[], hg', rfl⟩
+                          simpa using this
+                        have hpar : ∀ its ∈ itemss, ∀ it ∈ its, ItemShape it ∧ ∃ b, ClauseMeans it X Y Z b := by
+                          intro its hits it hi
+                          obtain ⟨g', hg', _, hh, _⟩ := k4 its hits
+                          obtain ⟨l, _, hm⟩ := hh it hi
+                          exact ⟨hm.2, _, hm.1⟩
+                        obtain ⟨vc, hvc, hb⟩ := (hSp itemss hne hnn hpar).1 ⟨items, hit, htrue⟩
+                        rw [hvc] at h; injection h with h; subst h
+                        exact hb
 
 
 /-! ### exactness on python-only markers with a DNF of python items -/
@@ -606,7 +614,6 @@ for a marker over python variables only whose DNF consists of python items (`Dnf
 theorem gpc_exact (S : LeafSpec ev G) (X Y Z : Nat) (m : M) (g : VC) (hg : M.Good G m)
     (hv : ∀ n ∈ M.vars m, pyNames.contains n = true)
     (hL : ∀ l, G l → convKey l.name = pyKey → LeafClause ev X Y Z l) (hSp : SplitSound X Y Z)
-    (hne : ∀ d, dnf defaultFuel [] m = .ok d → d ≠ .empty)
     (hpy : ∀ d, dnf defaultFuel [] m = .ok d → ∀ l ∈ M.leaves d, convKey l.name = pyKey)
     (h : gpc m = .ok g) : M.sem ev m = g.allowsPlain (pyV X Y Z) := by
   cases hs : M.sem ev m with
@@ -627,137 +634,145 @@ theorem gpc_exact (S : LeafSpec ev G) (X Y Z : Nat) (m : M) (g : VC) (hg : M.Goo
         · simp only [he, Bool.false_eq_true, if_false] at h
           split at h
           · cases h
-          · rename_i cm hcm
-            simp only [convertMarkersFor, bind, Except.bind] at hcm
-            split at hcm
-            · cases hcm
-            · rename_i d hd
-              have hds := dnf_sound S hg hd
-              have hdf : M.sem ev d = false := by rw [hds.2]; exact hs
-              obtain ⟨hne, hsh⟩ := dnfPy_of d (dnf_isDnf hd) (hne d hd)
-                (by intro e; rw [e] at hdf; simp at hdf) (hpy d hd)
-              split at hcm
-              · cases hcm
-              · rename_i groups hgroups
-                have hmm := mapM_ok_mem (conjPairs "python_version") (membersIfUnion d) groups hgroups
-                -- no conjunction of the DNF has an empty group (it would hold)
-                have hnoempty : ∀ gr ∈ groups, gr ≠ [] := by
-                  intro gr hgr e
-                  subst e
-                  obtain ⟨c, hc, hcp⟩ := hmm.2 [] hgr
-                  obtain ⟨ls, h1, _, h3⟩ := conjPairs_py (ev := ev) c [] hcp (hsh c hc)
-                  have : ls = [] := by simpa using h1.symm
-                  subst this
-                  have := member_false_of_sem_false d c hc hdf
-                  rw [h3] at this; simp at this
-                by_cases hall : groups.all List.isEmpty = true
-                · exfalso
-                  obtain ⟨c, hc⟩ := List.exists_mem_of_ne_nil _ hne
-                  obtain ⟨gr, hgr, _⟩ := hmm.1 c hc
-                  have := List.all_eq_true.1 hall gr hgr
-                  exact hnoempty gr hgr (by simpa using this)
-                · simp only [hall, Bool.false_eq_true, if_false, pure, Except.pure] at hcm
-                  injection hcm with hcm; subst hcm
-                  simp only at h
-                  by_cases hc : (dedupGroups groups).contains [] = true
-                  · exfalso
-                    have : ([] : List (String × String)) ∈ dedupGroups groups := by simpa using hc
-                    exact hnoempty [] ((dedup_mem groups []).1 this) rfl
-                  · simp only [hc, Bool.false_eq_true, if_false] at h
-                    split at h
-                    · cases h
-                    · rename_i txt htxt
-                      have hgr : ∀ gr ∈ dedupGroups groups, ∃ ls : List Leaf, gr = ls.map leafPair ∧
-                          ∀ l ∈ ls, LeafClause ev X Y Z l := by
-                        intro gr hgr
-                        obtain ⟨c, hc, hcp⟩ := hmm.2 gr ((dedup_mem groups gr).1 hgr)
-                        obtain ⟨ls, h1, h2, h3, _⟩ := conjPairs_spec (ev := ev) c gr hcp
-                        refine ⟨ls, h1, fun l hl => hL l ?_ (h2 l hl)⟩
-                        exact good_leaves c (good_membersIfUnion d hds.1 c hc) l (h3 l hl)
-                      obtain ⟨gsL, hdg, hgsL⟩ := choose_groups _ _ hgr
-                      obtain ⟨itemss, hn, hlen, k3, k4⟩ := normMarkers_groups X Y Z gsL hgsL
-                      rw [hdg, hn] at htxt
-                      injection htxt with htxt; subst htxt
-                      have hne' : itemss ≠ [] := by
-                        obtain ⟨c, hc⟩ := List.exists_mem_of_ne_nil _ hne
-                        obtain ⟨gr, hgr1, _⟩ := hmm.1 c hc
-                        have hgd : gr ∈ dedupGroups groups := (dedup_mem groups gr).2 hgr1
-                        rw [hdg] at hgd
-                        obtain ⟨ls', hls', _⟩ := List.mem_map.1 hgd
-                        obtain ⟨items, hit, _⟩ := k3 ls' hls'
-                        exact List.ne_nil_of_mem hit
-                      have hnn : ∀ its ∈ itemss, its ≠ [] := by
-                        intro its hits
-                        obtain ⟨g', hg', hl', _, _⟩ := k4 its hits
-                        intro e
-                        rw [e] at hl'
-                        have : g' = [] := List.length_eq_zero_iff.1 hl'.symm
-                        subst this
-                        apply hc
-                        rw [hdg]
-                        have : ([] : List (String × String)) ∈ gsL.map (·.map leafPair) :=
-                          List.mem_map.2 ⟨[], hg', rfl⟩
-                        simpa using this
-                      have hpar : ∀ its ∈ itemss, ∀ it ∈ its, ItemShape it ∧ ∃ b, ClauseMeans it X Y Z b := by
-                        intro its hits it hi
-                        obtain ⟨g', hg', _, hh, _⟩ := k4 its hits
-                        obtain ⟨l, _, hm⟩ := hh it hi
-                        exact ⟨hm.2, _, hm.1⟩
-                      -- every group has a clause that rejects the interpreter
-                      have hfalse : ∀ its ∈ itemss, ∃ it ∈ its, ClauseMeans it X Y Z false := by
-                        intro its hits
-                        obtain ⟨g', hg', _, _, hconv⟩ := k4 its hits
-                        have hgd : g'.map leafPair ∈ dedupGroups groups := by
-                          rw [hdg]; exact List.mem_map.2 ⟨g', hg', rfl⟩
-                        obtain ⟨c, hc1, hcp⟩ := hmm.2 _ ((dedup_mem groups _).1 hgd)
-                        obtain ⟨ls, h1, h2, h3⟩ := conjPairs_py (ev := ev) c _ hcp (hsh c hc1)
-                        have hcf := member_false_of_sem_false d c hc1 hdf
-                        rw [h3] at hcf
-                        obtain ⟨l0, hl0, hev0⟩ : ∃ l0 ∈ ls, ev l0 = false := by
-                          have : ¬ (∀ x ∈ ls, ev x = true) := by
-                            intro hx; rw [List.all_eq_true.2 hx] at hcf; cases hcf
-                          by_contra hcon
-                          apply this
-                          intro x hx
-                          cases hxe : ev x with
-                          | true => rfl
-                          | false => exact (hcon ⟨x, hx, hxe⟩).elim
-                        have hp : leafPair l0 ∈ g'.map leafPair := by rw [h1]; exact List.mem_map.2 ⟨l0, hl0, rfl⟩
-                        obtain ⟨l', hl', hpe⟩ := List.mem_map.1 hp
-                        obtain ⟨it, hit, hm⟩ := hconv l' hl'
-                        refine ⟨it, hit, ?_⟩
-                        -- `l'` and `l0` have the same pair, hence the same clause, hence the same truth
-                        have hG0 : G l0 := good_leaves c (good_membersIfUnion d hds.1 c hc1) l0 (h2 l0 hl0)
-                        have hk0 : convKey l0.name = pyKey := by
-                          rcases hsh c hc1 with ⟨l, rfl, hk⟩ | ⟨ms, rfl, hms⟩
-                          · have := h2 l0 hl0; simp [M.leaves] at this; subst this; exact hk
-                          · have := h2 l0 hl0
-                            simp only [M.leaves] at this
-                            exact leavesList_py ms hms l0 this
-                        obtain ⟨s0, item0, rfl, _, hitem0, hmean0, _⟩ := hL l0 hG0 hk0
-                        obtain ⟨s1, item1, rfl, _, hitem1, hmean1, _⟩ := hgsL g' hg' l' hl'
-                        simp only [leafPair, Prod.mk.injEq] at hpe
-                        rw [← hpe.1, ← hpe.2, hitem1] at hitem0
-                        injection hitem0 with hitem0; subst hitem0
-                        rw [hev0] at hmean0
-                        obtain ⟨vc0, hvc0, hb0⟩ := hmean0
-                        obtain ⟨vc1, hvc1, hb1⟩ := hmean1
-                        rw [hvc0] at hvc1; injection hvc1 with hvc1; subst hvc1
-                        rw [hb0] at hb1
-                        rw [← hb1] at hm
-                        exact hm
-                      obtain ⟨vc, hvc, hb⟩ := (hSp itemss hne' hnn hpar).2 hfalse
-                      rw [hvc] at h; injection h with h; subst h
-                      exact hb
+          · rename_i d0 hd0
+            by_cases hde : d0.isEmpty = true
+            · simp only [hde, if_true, pure, Except.pure] at h
+              injection h with h; subst h; exact empty_allowsPlain _
+            · simp only [hde, Bool.false_eq_true, if_false] at h
+              split at h
+              · cases h
+              · rename_i cm hcm
+                simp only [convertMarkersFor, bind, Except.bind] at hcm
+                split at hcm
+                · cases hcm
+                · rename_i d hd
+                  have hds := dnf_sound S hg hd
+                  have hdf : M.sem ev d = false := by rw [hds.2]; exact hs
+                  obtain ⟨hne, hsh⟩ := dnfPy_of d (dnf_isDnf hd) (by intro e; rw [hd0] at hd; cases hd; subst e; exact hde rfl)
+                    (by intro e; rw [e] at hdf; simp at hdf) (hpy d hd)
+                  split at hcm
+                  · cases hcm
+                  · rename_i groups hgroups
+                    have hmm := mapM_ok_mem (conjPairs "python_version") (membersIfUnion d) groups hgroups
+                    -- no conjunction of the DNF has an empty group (it would hold)
+                    have hnoempty : ∀ gr ∈ groups, gr ≠ [] := by
+                      intro gr hgr e
+                      subst e
+                      obtain ⟨c, hc, hcp⟩ := hmm.2 [] hgr
+                      obtain ⟨ls, h1, _, h3⟩ := conjPairs_py (ev := ev) c [] hcp (hsh c hc)
+                      have : ls = [] := by simpa using h1.symm
+                      subst this
+                      have := member_false_of_sem_false d c hc hdf
+                      rw [h3] at this; simp at this
+                    by_cases hall : groups.all List.isEmpty = true
+                    · exfalso
+                      obtain ⟨c, hc⟩ := List.exists_mem_of_ne_nil _ hne
+                      obtain ⟨gr, hgr, _⟩ := hmm.1 c hc
+                      have := List.all_eq_true.1 hall gr hgr
+                      exact hnoempty gr hgr (by simpa using this)
+                    · simp only [hall, Bool.false_eq_true, if_false, pure, Except.pure] at hcm
+                      injection hcm with hcm; subst hcm
+                      simp only at h
+                      by_cases hc : (dedupGroups groups).contains [] = true
+                      · exfalso
+                        have : ([] : List (String × String)) ∈ dedupGroups groups := by simpa using hc
+                        exact hnoempty [] ((dedup_mem groups []).1 this) rfl
+                      · simp only [hc, Bool.false_eq_true, if_false] at h
+                        split at h
+                        · cases h
+                        · rename_i txt htxt
+                          have hgr : ∀ gr ∈ dedupGroups groups, ∃ ls : List Leaf, gr = ls.map leafPair ∧
+                              ∀ l ∈ ls, LeafClause ev X Y Z l := by
+                            intro gr hgr
+                            obtain ⟨c, hc, hcp⟩ := hmm.2 gr ((dedup_mem groups gr).1 hgr)
+                            obtain ⟨ls, h1, h2, h3, _⟩ := conjPairs_spec (ev := ev) c gr hcp
+                            refine ⟨ls, h1, fun l hl => hL l ?_ (h2 l hl)⟩
+                            exact good_leaves c (good_membersIfUnion d hds.1 c hc) l (h3 l hl)
+                          obtain ⟨gsL, hdg, hgsL⟩ := choose_groups _ _ hgr
+                          obtain ⟨itemss, hn, hlen, k3, k4⟩ := normMarkers_groups X Y Z gsL hgsL
+                          rw [hdg, hn] at htxt
+                          injection htxt with htxt; subst htxt
+                          have hne' : itemss ≠ [] := by
+                            obtain ⟨c, hc⟩ := List.exists_mem_of_ne_nil _ hne
+                            obtain ⟨gr, hgr1, _⟩ := hmm.1 c hc
+                            have hgd : gr ∈ dedupGroups groups := (dedup_mem groups gr).2 hgr1
+                            rw [hdg] at hgd
+                            obtain ⟨ls', hls', _⟩ := List.mem_map.1 hgd
+                            obtain ⟨items, hit, _⟩ := k3 ls' hls'
+                            exact List.ne_nil_of_mem hit
+                          have hnn : ∀ its ∈ itemss, its ≠ [] := by
+                            intro its hits
+                            obtain ⟨g', hg', hl', _, _⟩ := k4 its hits
+                            intro e
+                            rw [e] at hl'
+                            have : g' = [] := List.length_eq_zero_iff.1 hl'.symm
+                            subst this
+                            apply hc
+                            rw [hdg]
+                            have : ([] : List (String × String)) ∈ gsL.map (·.map leafPair) :=
+                              List.mem_map.2 ⟨[], hg', rfl⟩
+                            simpa using this
+                          have hpar : ∀ its ∈ itemss, ∀ it ∈ its, ItemShape it ∧ ∃ b, ClauseMeans it X Y Z b := by
+                            intro its hits it hi
+                            obtain ⟨g', hg', _, hh, _⟩ := k4 its hits
+                            obtain ⟨l, _, hm⟩ := hh it hi
+                            exact ⟨hm.2, _, hm.1⟩
+                          -- every group has a clause that rejects the interpreter
+                          have hfalse : ∀ its ∈ itemss, ∃ it ∈ its, ClauseMeans it X Y Z false := by
+                            intro its hits
+                            obtain ⟨g', hg', _, _, hconv⟩ := k4 its hits
+                            have hgd : g'.map leafPair ∈ dedupGroups groups := by
+                              rw [hdg]; exact List.mem_map.2 ⟨g', hg', rfl⟩
+                            obtain ⟨c, hc1, hcp⟩ := hmm.2 _ ((dedup_mem groups _).1 hgd)
+                            obtain ⟨ls, h1, h2, h3⟩ := conjPairs_py (ev := ev) c _ hcp (hsh c hc1)
+                            have hcf := member_false_of_sem_false d c hc1 hdf
+                            rw [h3] at hcf
+                            obtain ⟨l0, hl0, hev0⟩ : ∃ l0 ∈ ls, ev l0 = false := by
+                              have : ¬ (∀ x ∈ ls, ev x = true) := by
+                                intro hx; rw [List.all_eq_true.2 hx] at hcf; cases hcf
+                              by_contra hcon
+                              apply this
+                              intro x hx
+                              cases hxe : ev x with
+                              | true => rfl
+                              | false => exact (hcon ⟨x, hx, hxe⟩).elim
+                            have hp : leafPair l0 ∈ g'.map leafPair := by rw [h1]; exact List.mem_map.2 ⟨l0, hl0, rfl⟩
+                            obtain ⟨l', hl', hpe⟩ := List.mem_map.1 hp
+                            obtain ⟨it, hit, hm⟩ := hconv l' hl'
+                            refine ⟨it, hit, ?_⟩
+                            -- `l'` and `l0` have the same pair, hence the same clause, hence the same truth
+                            have hG0 : G l0 := good_leaves c (good_membersIfUnion d hds.1 c hc1) l0 (h2 l0 hl0)
+                            have hk0 : convKey l0.name = pyKey := by
+                              rcases hsh c hc1 with ⟨l, rfl, hk⟩ | ⟨ms, rfl, hms⟩
+                              · have := h2 l0 hl0; simp [M.leaves] at this; subst this; exact hk
+                              · have := h2 l0 hl0
+                                simp only [M.leaves] at this
+                                exact leavesList_py ms hms l0 this
+                            obtain ⟨s0, item0, rfl, _, hitem0, hmean0, _⟩ := hL l0 hG0 hk0
+                            obtain ⟨s1, item1, rfl, _, hitem1, hmean1, _⟩ := hgsL g' hg' l' hl'
+                            simp only [leafPair, Prod.mk.injEq] at hpe
+                            rw [← hpe.1, ← hpe.2, hitem1] at hitem0
+                            injection hitem0 with hitem0; subst hitem0
+                            rw [hev0] at hmean0
+                            obtain ⟨vc0, hvc0, hb0⟩ := hmean0
+                            obtain ⟨vc1, hvc1, hb1⟩ := hmean1
+                            rw [hvc0] at hvc1; injection hvc1 with hvc1; subst hvc1
+                            rw [hb0] at hb1
+                            rw [← hb1] at hm
+                            exact hm
+                          obtain ⟨vc, hvc, hb⟩ := (hSp itemss hne' hnn hpar).2 hfalse
+                          rw [hvc] at h; injection h with h; subst h
+                          exact hb
 
-/-- what the code answers when only the DNF finds the marker unsatisfiable: `marker.only(…)` is neither the
-universal nor the empty marker, `dnf(marker)` is the empty marker — `convert_markers` then has no entry for
-`python_version` at all, which `get_python_constraint_from_marker` reads as "python_version is arbitrary" -/
-theorem gpc_any_of_dnf_empty (m pm : M) (ho : m.only Gen.pythonVersionMarkers.reverse = .ok pm)
+/-- when only the DNF finds the marker unsatisfiable — `marker.only(…)` is neither the universal nor the empty
+marker, `dnf(marker)` is the empty marker — the answer is the empty constraint (before the repair of
+`get_python_constraint_from_marker` it was the universal range: `convert_markers` then has no entry for
+`python_version` at all, which was read as "python_version is arbitrary") -/
+theorem gpc_empty_of_dnf_empty (m pm : M) (ho : m.only Gen.pythonVersionMarkers.reverse = .ok pm)
     (h1 : pm.isAny = false) (h2 : pm.isEmpty = false) (hd : dnf defaultFuel [] m = .ok .empty) :
-    gpc m = .ok VC.any := by
-  simp only [gpc, bind, Except.bind, ho, h1, h2, Bool.false_eq_true, if_false, convertMarkersFor, hd,
-    membersIfUnion, List.mapM_cons, List.mapM_nil, conjPairs, pure, Except.pure]
-  rfl
+    gpc m = .ok .empty := by
+  have he : M.isEmpty .empty = true := rfl
+  simp only [gpc, bind, Except.bind, ho, h1, h2, Bool.false_eq_true, if_false, hd, he, if_true, pure,
+    Except.pure]
 
 end Poetry.Marker
